@@ -17,8 +17,8 @@ FUNCTIONS = ["stereo_mol_graph_to_rdmol", "mol_graph_to_rdmol", "set_bond_orders
              "StereoMolGraph.to_rdmol", "StereoMolGraph.from_rdmol"]
 IDSETS = [None, {0: 11, 1: 5, 2: 40, 3: 1, 4: 999, 5: 2, 6: 77, 7: 8}]
 BOUNDS = {"quick": "templates star4 (Tet all 24 orderings x parity, SP), lonepair, star5 (TBP, strided), star6 (Oct, strided), dbond (PlanarBond); 2 identifier sets "
-                   "(0-based and {11,5,40,1,999,2,..}); 3 atom insertion orders",
-          "thorough": "all orderings of TBP, 144 of Oct; 6 insertion orders"}
+                   "(0-based and {11,5,40,1,999,2,..}); 3 atom insertion orders; two directly bonded centres (Oct+Tet, Oct+Oct, TBP+Tet, SP+Tet, Oct+TBP; 6 orderings x parities x 6 insertion orders); 10 whole molecules (C=C next to sulfonyl / phosphoryl / carbonyl, 1-2 tetrahedral centres) x 8 insertion orders x heteroatoms-first, bond orders regenerated",
+          "thorough": "all orderings of TBP, 144 of Oct; 6 insertion orders; 24 orderings / 16 insertion orders of the bonded pairs, 40 insertion orders of the molecules"}
 OUTSIDE = "molecules with several stereo units other than the listed pairs of directly bonded centres; RDKit sanitisation of larger molecules; identifiers <= 0 (atom-map numbers must be positive)"
 ASSUMPTIONS = ["identifiers are positive (RDKit atom-map numbers; the importer rejects 0)"]
 
